@@ -2093,6 +2093,6 @@ Theorem errors_propagate_all msgs o p s dests self :
 Proof.
   intros D Hin.
   destruct (single_entry_points_dead_peer msgs o p s D) as (A & B & C & E & _).
-  split; [now apply send_to_children_dead_child|]. split; [now apply multicast_reports_dead_peer|].
-  split; [intros Hne; now apply broadcast_reports_dead_peer|]. auto.
+  split; [now apply (send_to_children_dead_child msgs o p)|]. split; [now apply (multicast_reports_dead_peer msgs o p)|].
+  split; [intros Hne; now apply (broadcast_reports_dead_peer msgs o p)|]. auto.
 Qed.
